@@ -294,7 +294,7 @@ static drv::Result run_dec(int dec, uint32_t flags, const std::vector<uint8_t> &
 static bool has(const std::vector<int> &v, int x) { return std::find(v.begin(), v.end(), x) != v.end(); }
 
 // Compare one liblzma run with the model of the format that decoder handles.
-static void judge(const char *who, Fmt f, bool auto_on_alone, uint32_t flags, bool finish, const Model &M, const drv::Result &L, size_t n) {
+static void judge(const char *who, Fmt f, bool is_auto, bool auto_on_alone, uint32_t flags, bool finish, const Model &M, const drv::Result &L, size_t n) {
 	if (L.ret == LZMA_MEM_ERROR) { count("environment_alloc_cap"); return; }
 	if (L.call_bound) violation("C04:call-bound", "%s: call bound exceeded (calls=%zu, ret=%s)", who, L.calls, drv::retname(L.ret));
 	if (L.ret == LZMA_PROG_ERROR || L.ret == LZMA_MEMLIMIT_ERROR || L.ret == LZMA_SEEK_NEEDED || (int)L.ret > 12)
@@ -309,6 +309,12 @@ static void judge(const char *who, Fmt f, bool auto_on_alone, uint32_t flags, bo
 			// container.h: trailing data after one .lzma stream => LZMA_DATA_ERROR; otherwise STREAM_END needs LZMA_FINISH
 			if (M.in_used < n) { if (L.ret != LZMA_DATA_ERROR) violation("C16:auto-lzma-concatenated-trailing", "%s: .lzma followed by %zu bytes under CONCATENATED must give LZMA_DATA_ERROR: %s", who, n - M.in_used, lib()); if (!same_out) violation("C16:content", "%s: bytes before the trailing-data error differ: %s", who, lib()); count("expect_lzma_concat_trailing_data_error"); return; }
 			if (!finish) { if (L.ret != LZMA_BUF_ERROR || !same_out || L.total_in != n) violation("C16:concatenated-needs-finish", "%s: complete .lzma, CONCATENATED, LZMA_RUN only: expected no STREAM_END and all output: %s", who, lib()); count("expect_valid_so_far"); return; }
+		}
+		if (is_auto && f == F_LZIP && concat && M.in_used < n && L.ret == LZMA_DATA_ERROR && same_out) {
+			// fixed finding: the auto decoder applied its ".lzma must not be followed by anything" test to .lz files too
+			const char *sig = "C16:auto-lzip-trailing-data";
+			if (known_finding(sig)) return;
+			violation(sig, "%s: .lz members followed by trailing data under CONCATENATED: the .lz rules say success with the trailing data unread: %s", who, lib());
 		}
 		if (concat && !finish && f == F_LZIP && M.trailing_stop && !auto_on_alone) {
 			// lzip doc: STREAM_END in front of trailing data; flag doc: no STREAM_END without LZMA_FINISH - both readings accepted
@@ -432,7 +438,7 @@ extern "C" int LLVMFuzzerTestOneInput(const uint8_t *data, size_t size) {
 	if (unrecognised_empty) { if (L.ret == LZMA_STREAM_END) violation("C16:invalid-accepted", "auto decoder accepted an empty file"); count("empty_file"); return 0; }
 	Model M = run_model(f, F, concat && f != F_ALONE, ign, finish, auto_on_alone);
 	char who[48]; snprintf(who, sizeof who, "%s decoder", dec_names[dec]);
-	judge(who, f, auto_on_alone, flags, finish, M, L, n);
+	judge(who, f, is_auto, auto_on_alone, flags, finish, M, L, n);
 	check_info(who, dec, f, is_auto, flags, F, L);
 	if (is_auto) {
 		int sdec = f == F_XZ ? D_STREAM : (f == F_LZIP ? D_LZIP : D_ALONE);
